@@ -14,6 +14,9 @@ import (
 
 	"github.com/godaddy/asherah/go/appencryption"
 	"github.com/godaddy/asherah/go/appencryption/pkg/crypto/aead"
+	"github.com/godaddy/asherah/go/securememory"
+	"github.com/godaddy/asherah/go/securememory/memguard"
+	"github.com/godaddy/asherah/go/securememory/protectedmemory"
 
 	"verif/sim/refimpl"
 	"verif/sim/simrt"
@@ -139,6 +142,8 @@ type World struct {
 	Sessions  int
 
 	RetainBuffers bool
+	// RealSecrets: 0 = tracking pure-Go factory, 1 = real protectedmemory, 2 = real memguard (behind a retaining wrapper)
+	RealSecrets int
 	Retained      []*Retained
 
 	ScanLeaks bool
@@ -197,9 +202,16 @@ func (w *World) NewProc(cfg PolicyCfg) *Proc {
 		ms = &msViewSuffixed{msView: msView{w: w, proc: p.ID}, suffix: w.Suffix}
 	}
 	conf := &appencryption.Config{Service: w.Service, Product: w.Product, Policy: cfg.Build()}
+	var sf securememory.SecretFactory = &ledgerFactory{w: w, proc: p.ID}
+	switch w.RealSecrets {
+	case 1:
+		sf = &retainingFactory{w: w, proc: p.ID, inner: new(protectedmemory.SecretFactory)}
+	case 2:
+		sf = &retainingFactory{w: w, proc: p.ID, inner: new(memguard.SecretFactory)}
+	}
 	p.Factory = appencryption.NewSessionFactory(conf, ms, &kmsView{w: w, proc: p.ID},
 		&aeadView{w: w, proc: p.ID, real: aead.NewAES256GCM()},
-		appencryption.WithSecretFactory(&ledgerFactory{w: w, proc: p.ID}))
+		appencryption.WithSecretFactory(sf))
 	w.S.Logf("proc %d start %s", p.ID, cfg)
 	return p
 }
